@@ -109,19 +109,9 @@ def run(ctx, rep):
         is_ovf = s['kind'] == 'assert' and t['msg'] in ('Overflow', 'OverflowNeg')
         if not (is_dbg or is_ovf):
             continue
-        d = c05.discharge(F, s)
-        verdict = None
-        if d:
-            verdict = (True, '%s: %s' % d)
-        else:
-            for (rf, rw, rule, ver) in c05.d3_table(ctx):
-                if rf != fnp:
-                    continue
-                if rw is not None and not any(w in s['what'] for w in rw.split('|')):
-                    continue
-                ok, why = ver(ctx, s)
-                verdict = (ok, 'D3[%s]: %s' % (rule, why))
-                break
+        verdict = c05.verdict_for(ctx, s)
+        if not verdict[0] and not verdict[1].startswith('D3'):
+            verdict = None
         if verdict is None:
             verdict = (False, 'debug builds panic here, release builds continue with a wrapped / unchecked value' if is_ovf else
                        'the condition is checked only in debug builds and is not implied by a real guard')
